@@ -89,13 +89,13 @@ def gen_cases(rng, tier):
     N = 260 if tier == 'quick' else 4000
     for _ in range(N):
         n = rng.choice([0, 1, 2, 5, 8, 9, 16, 17, 24, 31, 32, 33, 40, 64, 65]) if rng.random() < 0.85 else rng.randrange(0, 200)
-        yield {'op': 'program', 'cls': rng.choice(MUTABLE), 'bits': rand_bits(rng, n), 'steps': [gen_step(rng, max(n, 4), tier) for _ in range(rng.randrange(1, 13))]}
+        yield {'op': 'program', 'cls': rng.choice(MUTABLE), 'bits': rand_bits(rng, n), 'steps': [gen_step(rng, max(n, 4), tier) for _ in range(rng.randrange(1, 13))], 'lsb0': rng.random() < 0.25}
     # single steps of every operation on fresh contents, so that the boundary values are exact for the current length
     for op in MUTS:
         for _ in range(30 if tier == 'quick' else 400):
             n = rng.choice([0, 1, 2, 3, 5, 8, 9, 10, 16, 17, 24, 32, 33])
             bits = rand_bits(rng, n)
-            yield {'op': 'program', 'cls': rng.choice(MUTABLE), 'bits': bits, 'steps': [gen_step(rng, n, tier, op, bits)]}
+            yield {'op': 'program', 'cls': rng.choice(MUTABLE), 'bits': bits, 'steps': [gen_step(rng, n, tier, op, bits)], 'lsb0': rng.random() < 0.3}
     # store adoption: an EMPTY object takes an operand given as a literal, is edited in place, and the same literal is used again
     for _ in range(40 if tier == 'quick' else 600):
         lit = rand_bits(rng, rng.choice([4, 8, 12, 16]), 'rand')
@@ -171,7 +171,9 @@ def apply_impl(s, st):
     raise AssertionError(op)
 
 def run_impl(c):
+    import bitstring
     s = build(c['cls'], c['bits'], 'bin')
+    bitstring.options.lsb0 = bool(c.get('lsb0'))          # reset by the driver
     trace = []
     for st in c['steps']:
         before = s.bin
@@ -227,15 +229,40 @@ def ref_step(d, st):
         r = R.call(R.replace, d, st['old'], st['new'], st['start'], st['end'], st['count'], bool(st['ba']))
         return (r[1][0], r[1][1], None) if r[0] == 'ok' else (d, None, r[1])
 
+SWAP = {'ilshift': 'irshift', 'irshift': 'ilshift', 'rol': 'ror', 'ror': 'rol'}
+def ref_step_lsb0(d, st):
+    """under lsb0: the msb0 specification applied to the bit-reversed content and operands with the same position arguments, reversed back; shifts and
+    rotations keep their direction relative to the most significant end, integers are encoded as in msb0"""
+    X = d[::-1]
+    st2 = dict(st)
+    st2['op'] = SWAP.get(st['op'], st['op'])
+    for k in ('bs', 'old', 'new'):
+        if isinstance(st2.get(k), str): st2[k] = st2[k][::-1]
+    if st['op'] == 'setitem':
+        v = st['val']; key = mkkey(st['key'])
+        if 'bits' in v: st2['val'] = {'bits': v['bits'][::-1]}
+        elif isinstance(key, slice) and key.step in (None, 1):
+            try: L = len(X[key])
+            except Exception: return None
+            iv = v['int']
+            if L == 0 or not (-(1 << (L - 1)) <= iv < (1 << L)): return (d, None, 'ValueError')
+            st2['val'] = {'bits': format(iv & ((1 << L) - 1), f'0{L}b')[::-1]}       # the integer's own encoding lands in the slice un-mirrored
+        elif isinstance(key, slice) and key.step == -1: return None
+    if st.get('self_'): st2['self_'] = True
+    r = ref_step(X, st2)
+    if r is None: return None
+    content, ret, err = r
+    return (content[::-1], ret, err)
+
 def oracle(c, obs):
     for st, (before, r, after, ln) in zip(c['steps'], obs[1]):
         if ln != len(after): return f"len(s)={ln} but len(s.bin)={len(after)} after {st}"
-        exp = ref_step(before, st)
+        exp = ref_step_lsb0(before, st) if c.get('lsb0') else ref_step(before, st)
         if exp is None: continue
         content, ret, err = exp
         if err is None:
-            if r[0] != 'ok': return f"{c['cls']}({before!r}) {st} raised {r[1]}; specification gives {content!r}"
-            if after != content: return f"{c['cls']}({before!r}) {st} left {after!r}; specification gives {content!r}"
+            if r[0] != 'ok': return f"{'lsb0 ' if c.get('lsb0') else ''}{c['cls']}({before!r}) {st} raised {r[1]}; specification gives {content!r}"
+            if after != content: return f"{'lsb0 ' if c.get('lsb0') else ''}{c['cls']}({before!r}) {st} left {after!r}; specification gives {content!r}"
             if ret is not None and r[1] != ret: return f"{c['cls']}({before!r}) {st} returned {r[1]}, expected {ret}"
         else:
             if r[0] != 'err' or r[1] != err: return f"{c['cls']}({before!r}) {st} should raise {err}, got {r} (content {after!r})"
@@ -250,8 +277,15 @@ def classify(c, obs): return None
 def cob(x): return copt(x, cz)
 def ckey(key): return cslice(*key)
 
-def coq_step(st, before, r, after):
+def coq_step(st, before, r, after, lsb0=False):
     """Coq boolean: model(before, step) = (after | error)"""
+    if lsb0:
+        t = coq_step(st, before, r, after)
+        if t is None or st['op'] in ('ilshift', 'irshift', 'iand', 'ior', 'ixor', 'clear') or (st['op'] in ('set', 'invert') and st['pos'] is None): return t
+        for f in ('ba_insert', 'ba_overwrite', 'ba_append', 'ba_prepend', 'ba_delitem_slice', 'ba_delitem_int', 'ba_setitem_slice', 'ba_setitem_int', 'ba_reverse', 'ba_rol', 'ba_ror',
+                  'ba_set_range', 'set_list', 'invert_list', 'ba_byteswap', 'ba_imul', 'ba_replace'):
+            t = t.replace(f'({f} false ', f'({f} true ')
+        return t
     op = st['op']
     D = cbits(before)
     bs = before if st.get('self_') else st.get('bs')
@@ -304,7 +338,7 @@ def coq_step(st, before, r, after):
 def coq_check(c, obs):
     terms = []
     for st, (before, r, after, ln) in zip(c['steps'], obs[1]):
-        t = coq_step(st, before, r, after)
+        t = coq_step(st, before, r, after, bool(c.get('lsb0')))
         if t is not None: terms.append('(' + t + ')')
     return ' && '.join(terms) if terms else None
 
